@@ -770,6 +770,98 @@ def check_signals(ck, scenarios):
                         {'trace': head, 'ending': ending}, ans, TH_SESSION)
 
 
+# --------------------------- the process around the session: a stdout that breaks, PATH of ReBench
+def gen_process_env_scenarios(ck, quick):
+    rng = ck.rng
+    warn = [r for r in all_reports() if r['kind'] == 'json' and settings_changed(r)
+            and not (r['nice'] == 'yes' and r['shield'] == 'yes' and 'failed' not in r['others'])]
+    full = [{'kind': 'json', 'nice': 'yes', 'shield': 'yes', 'others': ['yes', 'yes', 'yes']}]
+    out = []
+    # stdout is a pipe whose reader leaves after k writes (`rebench conf | head`): every print from
+    # then on raises BrokenPipeError — wherever that happens, restore exactly once
+    for k in ([0, 1, 2, 3, 4, 6, 9, 14, 22, 40] if quick else list(range(0, 60))):
+        for rep in (rng.choice(warn), rng.choice(warn + full)):
+            out.append({'kind': 'process_env', 'report': rep, 'path': 'stdout-breaks', 'stdout_ok_writes': k,
+                        'rebench_path': 'default', 'profiling': False, 'no_denoise': False,
+                        'env': rng.choice(ENVS), 'cset': None, 'num_cores': 4})
+    # PATH of ReBench's own process: unset / empty / without the directory of sudo / usual
+    for rp in ('unset', 'empty', 'without-sudo', 'usual'):
+        for rep in (rng.choice(warn), full[0]):
+            out.append({'kind': 'process_env', 'report': rep, 'path': 'ok', 'stdout_ok_writes': None,
+                        'rebench_path': rp, 'profiling': False, 'no_denoise': False,
+                        'env': rng.choice(ENVS), 'cset': None, 'num_cores': 4})
+    return out
+
+
+def check_process_env(ck, scenarios):
+    ops, recs = [], []
+    for sc in scenarios:
+        _counter[0] += 1
+        wd = os.path.join(ck.scratch, 'pe%d' % _counter[0])
+        os.makedirs(wd)
+        conf = drive.write_config(wd, make_config(dict(sc, path='ok')))
+        stream = dd.BrokenPipeStream(sc['stdout_ok_writes']) if sc['stdout_ok_writes'] is not None else None
+        saved_env = dict(os.environ)
+        try:
+            if sc['rebench_path'] == 'unset':
+                os.environ.pop('PATH', None)
+            elif sc['rebench_path'] == 'empty':
+                os.environ['PATH'] = ''
+            elif sc['rebench_path'] == 'without-sudo':
+                os.environ['PATH'] = '/opt/only/bin:/bin'
+            elif sc['rebench_path'] == 'usual':
+                os.environ['PATH'] = '/usr/local/bin:/usr/bin:/bin'
+            res, events, _left = dd.run_parallel_session(wd, [conf], make_script(dict(sc, path='ok')), sc['report'],
+                                                         cpu_count=1, num_cores=sc['num_cores'], out_stream=stream)
+        finally:
+            os.environ.clear()
+            os.environ.update(saved_env)
+        ck.impl_traces += 1
+        ending = ending_of(res)
+        inp = dict(sc)
+        ck.count('process:%s path=%s -> %s' % (sc['path'], sc['rebench_path'], ending))
+        if stream is not None:
+            ck.count('stdout:%s' % ('broke' if stream.broken_at is not None else 'never-broke'))
+        trace, sudo = [], []
+        for e in events:
+            if e[0] == 'sudo':
+                found = e[5] if len(e) > 5 else True
+                if not found:
+                    trace.append({'t': 'sudo-not-found', 'verb': e[1]})
+                    continue
+                sudo.append((e[1], e[2]))
+                if e[1] == 'minimize':
+                    trace.append({'t': 'minimize', 'profiling': '--for-profiling' in e[2]})
+                elif e[1] == 'restore':
+                    trace.append({'t': 'restore', 'without_shielding': '--without-shielding' in e[2],
+                                  'without_nice': '--without-nice' in e[2]})
+            elif e[0] == 'start':
+                trace.append({'t': 'start', 'i': e[1]})
+            elif e[0] == 'stop':
+                trace.append({'t': 'stop', 'i': e[1], 'how': e[2]})
+        minimized = any(t['t'] == 'minimize' for t in trace)
+        if not minimized:
+            # sudo could not be found at start-up: nothing was changed, nothing may be invoked later
+            if any(t['t'] == 'restore' for t in trace):
+                ck.oracle_fail('denoise_only_as_granted', inp, {'trace': trace}, {'what': 'restore without minimize'})
+            ck.case(nontrivial_key=None)
+            continue
+        core = [t for t in trace if t['t'] != 'sudo-not-found']
+        trace_oracle(ck, inp, dict(sc, kind='session'), core, sudo, ending, sc['num_cores'])
+        head = [dict((k, v) for k, v in t.items() if k != 'how') for t in core]
+        body = [{'t': t['t'], 'i': t['i']} for t in head if t['t'] in ('start', 'stop')]
+        ops.append({'op': 'c20.session', 'no_denoise': False, 'profiling': False, 'report': sc['report'],
+                    'body': {'trace': body, 'ending': ending}})
+        recs.append((inp, head, ending))
+        ck.case(nontrivial_key=('penv', json.dumps(sc, sort_keys=True)),
+                sample={'process': sc['path'], 'rebench_path': sc['rebench_path'], 'trace': [t['t'] for t in trace]}
+                if _counter[0] % 11 == 0 else None)
+    for (inp, head, ending), ans in zip(recs, ck.model(ops)):
+        if ans.get('trace') != head or ans.get('ending') != ending:
+            ck.disagree('c20.session: session whose stdout breaks / with another PATH vs RB.Denoise.session', inp,
+                        {'trace': head, 'ending': ending}, ans, TH_SESSION)
+
+
 # ------------------------------------------------------- parallel scheduler
 def gen_parallel_scenarios(ck, n):
     rng = ck.rng
@@ -953,6 +1045,9 @@ def dispatch(ck, inputs):
     sess = [i for i in inputs if i['kind'] == 'session']
     for i in range(0, len(sess), 120):
         check_sessions(ck, sess[i:i + 120])
+    pe = [i for i in inputs if i['kind'] == 'process_env']
+    if pe:
+        check_process_env(ck, pe)
     sg = [i for i in inputs if i['kind'] == 'signal']
     if sg:
         check_signals(ck, sg)
@@ -999,6 +1094,7 @@ def run(ck):
     dispatch(ck, gen_denoise_py_cases(ck, 300))
     dispatch(ck, gen_exec_cases(ck))
     dispatch(ck, gen_signal_scenarios(ck, quick))
+    dispatch(ck, gen_process_env_scenarios(ck, quick))
     if not quick:
         dispatch(ck, gen_denoise_py_cases(ck, 0, exhaustive=True))
     check_shield(ck, 4096)
